@@ -124,6 +124,13 @@ def cases(tier, seed):
         for sw in SWITCHES:
             for ap in (False, True):
                 yield {"target": t, "seq": [["asm.uni", sw, ap]], "sub": False}
+    # other spellings of the same path: ./name, through an existing directory and back, through a directory that does not exist
+    for t in ("absent", "cas1", "dsk1", "rawbin"):
+        for cl in ("asm", "fu.cas"):
+            for sw in SWITCHES:
+                for ap in (False, True):
+                    for spell in ("./", "sub/../", "nosuch/../"):
+                        yield {"target": t, "seq": [[cl, sw, ap]], "sub": False, "spell": spell}
     # sequences of two (and three) invocations on the same path
     steps = [[cl, sw, ap] for cl in (CLIS if thorough else ["asm"]) for sw in SWITCHES for ap in (False, True)]
     for t in (TARGETS if thorough else ["absent", "empty", "cas1", "dsk1", "rawbin", "bytes"]):
@@ -180,9 +187,12 @@ def check_case(case):
         for idx, (cl, sw, ap) in enumerate(case["seq"]):
             before = open("target.out", "rb").read() if os.path.exists("target.out") else None
             kb, fb = classify(before)
-            kw = {"to_" + sw: "target.out", "append": ap}
+            tpath = case.get("spell", "") + "target.out"
+            if case.get("spell") == "sub/../":
+                os.makedirs("sub", exist_ok=True)
+            kw = {"to_" + sw: tpath, "append": ap}
             if case["sub"]:
-                args = (["prog.asm"] if cl == "asm" else ["src." + cl[3:]]) + ["--to_" + sw, "target.out"] + (["--append"] if ap else [])
+                args = (["prog.asm"] if cl == "asm" else ["src." + cl[3:]]) + ["--to_" + sw, tpath] + (["--append"] if ap else [])
                 status, out = cli.subprocess_cli("assembler.py" if cl == "asm" else "file_util.py", args, td)
             elif cl == "asm.uni":
                 status, out = cli.assembler("prog2.asm", name="\u03a9mega", **kw)
@@ -193,7 +203,7 @@ def check_case(case):
             after = open("target.out", "rb").read() if os.path.exists("target.out") else None
             ka, fa = classify(after)
             cell = "{}|{}|{}|{}|{}|step{}{}".format(kb if idx else case["target"], cl, sw, "append" if ap else "noappend", "seq" + str(len(case["seq"])),
-                                                  idx, "|sub" if case["sub"] else "")
+                                                  idx, "|sub" if case["sub"] else "") + ("|as:" + case["spell"] if case.get("spell") else "")
             trace.append("{}:{}->{}".format(cell, kb, ka))
 
             def bad(symptom, expected, observed):
